@@ -192,6 +192,35 @@ def r2(ctx):
     ok = kw.get('method') == 'source.method' and kw.get('service') == 'source.service' and kw.get('endpoint') == 'endpoint' and not ctor[0].args
   ctx.ob('C18.R2', d, 'per-reply Source copies method, service and the endpoint string', ok, 'per-reply Source is %s' % (U(ctor[0]) if ctor else None),
          'replies from the same endpoint must land in the same series')
+  # the per-call source of the dispatcher names THIS dispatcher's service: built per call, or cached per instance -- a table shared by all
+  # dispatchers (class attribute) keyed by the method alone records one service's calls under another's
+  dm = prog.func('scales/dispatch.py', 'MessageDispatcher._DispatchMethod')
+  dcls = dm.cls
+  inst_attrs = set(U(t) for st in ast.walk(dcls.methods['__init__'].node) if isinstance(st, ast.Assign) for t in st.targets if U(t).startswith('self.')) if '__init__' in dcls.methods else set()
+  sdm = [c for c in walk_no_nested(dm.node) if isinstance(c, ast.Call) and call_attr(c) == 'StaticDispatchMessage']
+  okd = len(sdm) == 1
+  whatd = 'StaticDispatchMessage call not found'
+  if okd:
+    from ..util import sym_env, sym_resolve
+    bad = []
+    n_src = 0
+    for ev, ex in enum_paths(ctx, dm):
+      for i, e in enumerate(ev):
+        if e.kind == 'call' and e.node is sdm[0]:
+          n_src += 1
+          src = sym_resolve(sdm[0].args[1], sym_env(ev, i)) if len(sdm[0].args) > 1 else None
+          if isinstance(src, ast.Call) and U(src.func) == 'Source':
+            kw = dict((k.arg, U(k.value)) for k in src.keywords)
+            if not (kw.get('service') == 'self._name' and kw.get('method') == dm.params[1]):
+              bad.append(U(src))
+          else:
+            cont = src.value if isinstance(src, ast.Subscript) else (src.func.value if isinstance(src, ast.Call) and isinstance(src.func, ast.Attribute) and src.func.attr in ('get', 'setdefault') else None)
+            if cont is None or U(cont) not in inst_attrs:
+              bad.append(U(src) if src is not None else None)
+    okd = not bad and n_src >= 1
+    whatd = 'the source handed to the dispatch is %s' % bad
+  ctx.ob('C18.R2', dm, 'the per-call Source is Source(method, this dispatcher\'s service), built per call or cached per dispatcher instance', okd, whatd,
+         'counters aggregated per service equal the increments recorded for THAT service')
   srci = prog.func(V, 'Source.__init__')
   ok = all(any(isinstance(s, ast.Assign) and U(s.targets[0]) == 'self.' + p and U(s.value) == p for s in srci.node.body) for p in ('method', 'service', 'endpoint', 'client_id'))
   ctx.ob('C18.R2', srci, 'Source stores its four fields as given', ok, 'Source.__init__ changed', 'identity fields must be the values supplied', nontrivial=False)
